@@ -112,7 +112,11 @@ def cases(rng, tier):
 		kind = rng.choice(KINDS)
 		yield ('el', gen_element(rng, kind))
 		if rng.random() < 0.4:
-			yield ('list', tuple(gen_element(rng, kind if kind in ('cookie', 'setcookie') else 'generic') for _ in range(rng.randrange(1, 5))))
+			els = [gen_element(rng, kind if kind in ('cookie', 'setcookie') else 'generic') for _ in range(rng.randrange(1, 5))]
+			if len(els) > 1 and rng.random() < 0.2:
+				# two elements of one list with the same value that differ in their parameters only (item;level=1, item;level=2)
+				els[-1] = (els[-1][0], els[0][1], els[-1][2])
+			yield ('list', tuple(els))
 	for _ in range(n):
 		k = rng.choice((1, 3, 6, 10, 18))
 		yield ('wire', bytes(rng.choice(b'ab;;==""\\\\ ,*\'012%C3%A9utf-8\xe9') for _ in range(k)))
@@ -308,6 +312,19 @@ def oracle(case):
 						return {'what': 'formatparam(%r, %r, quote=True) wrote %r, read back as %r' % (k, x, w, got1), 'finding': None}
 			except Exception as e:
 				return {'what': 'append(**params) / formatparam(quote=True) raised %s: %s' % (exc_name(e), e), 'elements': repr(els)[:300], 'finding': None}
+	# the list built element by element through a header collection (Headers.append_element), as an application adds items to a field
+	if not fid and kind == 'generic' and len(els) > 1:
+		from httoop import Headers
+		try:
+			h3 = Headers()
+			for (_k, v_, ps_) in els:
+				h3.append_element('X-Foo', v_, dict(ps_))
+			got3 = [canon(o) for o in h3.elements('X-Foo')]
+		except Exception as e:
+			return {'what': 'append_element()/elements() raised %s: %s' % (exc_name(e), e), 'elements': repr(els)[:300], 'finding': None}
+		fold3 = lambda l: [(v, sorted((k.lower(), x) for k, x in ps)) for v, ps in l]
+		if fold3(got3) != fold3(exp):
+			return {'what': 'the list built with append_element() reads back as %r, built from %r' % (got3[:4], exp[:4]), 'wire': repr(dict.__getitem__(h3, 'X-Foo'))[:300], 'finding': None}
 	# the same through a header collection, twice: what a caller does to the elements it was handed does not show in a later reading
 	if not fid:
 		from httoop import Headers
